@@ -17,6 +17,8 @@ inductive PyV
   | tuple : List PyV → PyV
   | dict : List (PyV × PyV) → PyV
   | ndarray : List PyV → PyV          -- an object array and its elements
+  | objA : PyV                         -- an instance of exactly the user class `clsA`
+  | objB : PyV                         -- an instance of the user class `clsB`, a subclass of `clsA`
   | other : PyV                        -- an instance of a class outside the grammar
 
 def baseHas : Base → PyV → Prop
@@ -27,6 +29,9 @@ def baseHas : Base → PyV → Prop
   | .str, .str _ => True
   | .bytes, .bytes _ => True
   | .none, .none => True
+  | .clsA, .objA => True
+  | .clsA, .objB => True           -- clsB is a subclass of clsA
+  | .clsB, .objB => True
   | _, _ => False
 
 mutual
@@ -284,6 +289,8 @@ def wit : Base → PyV
   | .str => .str ""
   | .bytes => .bytes ""
   | .none => .none
+  | .clsA => .objA
+  | .clsB => .objB
 
 theorem wit_has (x : Base) : baseHas x (wit x) := by cases x <;> simp [wit, baseHas]
 
